@@ -432,7 +432,7 @@ def describe():
         "rule": "plans are drawn by a seeded PRNG (swarm configuration, scripts, history of 2-12 "
                 "load/loads calls with planted failures, file-read faults, interruptions, exceptions "
                 "kept in garbage cycles with the collector run at a seeded line of a later load, "
-                "environment changes, API calls and mutations, then two sentinel loads); a history is distinct "
+                "environment changes, expression chains around the recursion boundary, typed-equal function arguments, API calls and mutations, then two sentinel loads); a history is distinct "
                 "by the digest of its plan and non-trivial when it contains at least one failed or "
                 "faulted load followed by at least one compared fault-free load",
         "components": {"real": ["blackbird (working tree)", "antlr4 runtime", "sympy", "numpy",
